@@ -297,7 +297,17 @@ def mutate(draw, doc, spec, A, parse_value):
             sels.insert(len(sels) if at_end else draw(st.integers(0, len(sels))),
                         A.FragmentSpread(name=A.Name(value=b.name.value), directives=[]))
 
-        if draw(st.booleans()):
+        recipe = draw(st.integers(0, 2))
+        if recipe == 2:
+            # an acyclic entry fragment, defined before the others, that leads into a cycle it is not part of
+            g = draw(st.permutations(group))
+            edge(g[0], g[1], True)
+            edge(g[1], g[2], draw(st.booleans()))
+            edge(g[2], g[1], draw(st.booleans()))
+            doc.definitions.remove(g[0])
+            doc.definitions.insert(0, g[0])
+            n_extra = draw(st.integers(0, 1))
+        elif recipe == 1:
             # a fragment reached twice before the spread that closes the cycle
             g = draw(st.permutations(group))
             edge(g[0], g[1], True)
